@@ -359,8 +359,9 @@ theorem decode_encode_content (P : Profile) (hwf : ProfileWF P = true) (hcont : 
         (wireFile P (P.containers.getD i default) f).slots).map slotMsgs)).1 ∧
       (decodeSpec P o .full g (bs ++ tail) stop).1.st.glob =
         (expandSlots P g (((P.containers.getD i default).slots.zip
-          (wireFile P (P.containers.getD i default) f).slots).map slotMsgs)).2 := by
-  obtain ⟨i, H, C, F, G, F', hci, hadd, hsucc, hglob, hfile, hsame⟩ :=
+          (wireFile P (P.containers.getD i default) f).slots).map slotMsgs)).2 ∧
+      ((F'.hdr.size = headerSizeNoCRC ∨ F'.hdr.size = headerSizeCRC) ∧ F'.hdr.dtype = fitTag ∧ F'.hdr.proto = f.hdr.proto) := by
+  obtain ⟨i, H, C, F, G, F', hci, hadd, hsucc, hglob, hfile, hsame, hH⟩ :=
     decode_encode_file P hwf arch f f' bs h hdom hsmall o g tail stop
   obtain ⟨F2, hadd2, r1, r2, r3, r4, r5, r6, r7, r8⟩ := replay_file P i (containerOK_getD P hcont i) (wireFile P (P.containers.getD i default) f) ((hsh i hci).wire P) H g
   rw [hadd] at hadd2
@@ -369,9 +370,11 @@ theorem decode_encode_content (P : Profile) (hwf : ProfileWF P = true) (hcont : 
   subst e1
   obtain ⟨s1, s2, s3, s4, s5, s6, s7, s8, s9⟩ := hsame
   simp only at s1 s2 s3 s4 s5 s6 s7 s8 s9
-  refine ⟨i, F', hci, hsucc, hfile, s3.trans r2, s4.trans r3, s5.trans r4, ?_, s6.trans r5, s7.trans r6, s9.trans r8, ?_⟩
+  have hh : F'.hdr = H := s1.trans r1
+  refine ⟨i, F', hci, hsucc, hfile, s3.trans r2, s4.trans r3, s5.trans r4, ?_, s6.trans r5, s7.trans r6, s9.trans r8, ?_, ?_⟩
   · rw [s8, r7, hci]
   · rw [hglob, e2]
+  · rw [hh]; exact hH
 
 /-- **`Decode (Encode f) = f`** on Files whose messages have no component fields (every type but
     session, lap, record, event, segment_lap) and whose pointer fields hold at most one message:
@@ -390,8 +393,9 @@ theorem decode_encode_identity (P : Profile) (hwf : ProfileWF P = true) (hcont :
       F'.fileId = wire1 P f.fileId ∧ F'.creator = f.creator.map (wire1 P) ∧ F'.tscorr = f.tscorr.map (wire1 P) ∧
       F'.cidx = f.cidx ∧ F'.fieldDescs = [] ∧ F'.devIds = [] ∧
       (∀ i, f.cidx = some i → F'.slots = (wireFile P (P.containers.getD i default) f).slots) ∧
-      (decodeSpec P o .full g (bs ++ tail) stop).1.st.glob = g := by
-  obtain ⟨i, F', hci, hsucc, hfile, r1, r2, r3, r4, r5, r6, r7, r8⟩ :=
+      (decodeSpec P o .full g (bs ++ tail) stop).1.st.glob = g ∧
+      ((F'.hdr.size = headerSizeNoCRC ∨ F'.hdr.size = headerSizeCRC) ∧ F'.hdr.dtype = fitTag ∧ F'.hdr.proto = f.hdr.proto) := by
+  obtain ⟨i, F', hci, hsucc, hfile, r1, r2, r3, r4, r5, r6, r7, r8, rH⟩ :=
     decode_encode_content P hwf hcont arch f f' bs h hdom hsmall hsh o g tail stop
   have hshw := (hsh i hci).wire P
   have hslots : (wireFile P (P.containers.getD i default) f).slots =
@@ -431,7 +435,7 @@ theorem decode_encode_identity (P : Profile) (hwf : ProfileWF P = true) (hcont :
       rw [(hsh i hci).nums z0 hz0 m1 hm1] at this
       rw [hn]; exact this
   rw [hmap, expandSlots_id P g _ hnxw] at r7 r8
-  refine ⟨F', hsucc, hfile, r1, r2, r3, r4, r5, r6, ?_, r8⟩
+  refine ⟨F', hsucc, hfile, r1, r2, r3, r4, r5, r6, ?_, r8, rH⟩
   intro j hj
   rw [hci] at hj
   injection hj with hj
